@@ -236,6 +236,15 @@ class KernelSim(WorldBase):
                             if g.random() < 0.7]
                     for t in (2, g.choice(THRESHOLDS)):
                         evs.append(["flat", {"dims": [M2, K2, N], "ent": ent2, "ncu": t, "traced_outer": to}])
+            if g.random() < 0.3:
+                S = g.randint(3, 12)
+                mkc = lambda: sorted(g.sample(range(S), g.randint(1, S)))
+                rs = []
+                for _ in range(g.randint(1, 3)):
+                    lo = g.choice([None, g.randrange(S)])
+                    hi = g.choice([None, g.randint((lo or 0) + 1, S + 2)])
+                    rs.append([lo, hi])
+                evs.append(["lazyrange", {"a": mkc(), "b": mkc(), "ranges": rs, "ncu": g.choice(THRESHOLDS)}])
             if g.random() < 0.4:
                 S = g.randint(2, 7)
                 mk = lambda: [[c, g.choice([1, 2, 3])] for c in range(S) if g.random() < 0.6]
@@ -463,6 +472,8 @@ class KernelSim(WorldBase):
                 return self.ev_lazytime(ev[1])
             if kind == "lateon":
                 return self.ev_lateon(ev[1])
+            if kind == "lazyrange":
+                return self.ev_lazyrange(ev[1])
             if kind == "swaps":
                 return self.ev_swaps(ev[1])
             if self.case is None:
@@ -1093,6 +1104,56 @@ class KernelSim(WorldBase):
                    f"collection switched on in the body of step {a['on_at']} of a running outer loop: result {got}, with "
                    f"collection off {ref}")
         return {"points": len(ref)}
+
+    def ev_lazyrange(self, a):
+        """a co-iteration walked over coordinate ranges (tile after tile, each tile its own session): every `iter` row
+        carries the element's coordinate and its index in the sequence the co-iteration produces - whatever range of
+        it is walked - and the stamps increase"""
+        self._quiesce()
+        A, B = a["a"], a["b"]
+        common = [c for c in A if c in B]
+        for n, (lo, hi) in enumerate(a["ranges"]):
+            a_k = Fiber(list(A), [1] * len(A))
+            b_k = Fiber(list(B), [2] * len(B))
+            a_k.getRankAttrs().setId("K")
+            b_k.getRankAttrs().setId("K")
+            prefix = os.path.join(self.scratch, f"lr{n}")
+            self.nsess += 1
+            self.kexec += 1
+            seen, err = [], None
+            try:
+                Metrics.beginCollect(prefix)
+                Metrics.setNumCachedUses(a["ncu"])
+                Metrics.trace("K")
+                for k, _ in (a_k & b_k).iterRange(lo, hi):
+                    seen.append(k)
+            except Exception as e:
+                err = f"{type(e).__name__}: {str(e)[:60]}"
+            finally:
+                try:
+                    Metrics.endCollect()
+                except Exception as e:
+                    err = err or f"endCollect {type(e).__name__}"
+            if self.prop != "C16":
+                continue
+            want = [(c, i) for i, c in enumerate(common) if (lo is None or c >= lo) and (hi is None or c < hi)]
+            if err:
+                self.V("C16", "C16.no-exception", "lazyrange", f"(a & b).iterRange({lo}, {hi}) under collection: {err}")
+                continue
+            try:
+                with open(prefix + "-K-iter.csv") as fh:
+                    lines = fh.read().splitlines()
+            except OSError:
+                lines = []
+            rows = [[int(x) for x in ln.split(",")] for ln in lines[1:]]
+            got = [(r[-2], r[-1]) for r in rows]
+            stamps = [r[0] for r in rows]
+            if seen != [c for c, _ in want] or got != want or stamps != sorted(set(stamps)):
+                self.V("C16", "C16.rows", "lazyrange",
+                       f"a = {A}, b = {B}, walk of (a & b).iterRange({lo}, {hi}): bodies at {seen}, iter rows (coordinate, "
+                       f"position) {got} with stamps {stamps}; the co-iteration produces {common}, so the rows are {want}")
+            self.probe("lazy_fiber_walked_over_a_range")
+        return {"ranges": len(a["ranges"])}
 
     def ev_lazytime(self, a):
         """z_m << (a_m & b_m) (or z_m << a_m), the loop object built (1) inside the session, right where it is walked,
